@@ -79,7 +79,7 @@ if TYPE_CHECKING:
     from .file import _GitFile
 
 from .errors import PackedRefsException, RefFormatError
-from .file import GitFile, ensure_dir_exists
+from .file import FileLocked, GitFile, ensure_dir_exists
 from .objects import ZERO_SHA, ObjectID, git_line, valid_hexsha
 
 Ref = NewType("Ref", bytes)
@@ -1049,6 +1049,19 @@ class DiskRefsContainer(RefsContainer):
           new_refs: A mapping of ref names to targets; if a target is None that
             means remove the ref
         """
+        self._add_packed_refs(new_refs, verify_loose=False)
+
+    def _add_packed_refs(
+        self, new_refs: Mapping[Ref, ObjectID | None], verify_loose: bool
+    ) -> None:
+        """Add the given refs as packed refs and drop their loose files.
+
+        Args:
+          new_refs: A mapping of ref names to targets; if a target is None that
+            means remove the ref
+          verify_loose: If True, a loose ref is only removed, under its own
+            lock, if it still holds the value that was packed
+        """
         if not new_refs:
             return
 
@@ -1064,24 +1077,54 @@ class DiskRefsContainer(RefsContainer):
                     if ref == HEADREF:
                         raise ValueError("cannot pack HEAD")
 
-                    # remove any loose refs pointing to this one -- please
-                    # note that this bypasses remove_if_equals as we don't
-                    # want to affect packed refs in here
-                    with suppress(OSError):
-                        os.remove(self.refpath(ref))
-
                     if target is not None:
                         packed_refs[ref] = target
                     else:
                         packed_refs.pop(ref, None)
 
                 write_packed_refs(f, packed_refs, self._peeled_refs)
+
+            # Only now that the new packed-refs file is in place may the
+            # loose refs it supersedes go away; removing them earlier loses
+            # the refs if writing packed-refs fails or the process dies.
+            for ref, target in new_refs.items():
+                self._prune_loose_ref(ref, target if verify_loose else None)
         finally:
             # Do not stat the path and associate that identity with the data
             # just written: another writer can replace packed-refs after the
             # lock is released but before the stat. Reload on the next access
             # instead.
             self._invalidate_packed_refs_cache()
+
+    def _prune_loose_ref(self, name: Ref, expected: ObjectID | None) -> None:
+        """Remove the loose file of a ref that now lives in packed-refs.
+
+        Note that this bypasses remove_if_equals as we don't want to affect
+        packed refs in here.
+
+        Args:
+          name: Name of the ref
+          expected: If not None, only remove the loose ref, while holding its
+            lock, if it still has this value, so that a concurrent update of
+            the ref is never thrown away
+        """
+        filename = self.refpath(name)
+        if expected is None:
+            with suppress(OSError):
+                os.remove(filename)
+            return
+        try:
+            f = GitFile(filename, "wb")
+        except (OSError, FileLocked):
+            # No loose ref directory, or the ref is being updated right now;
+            # a left-over loose ref is harmless as it overrides the packed one.
+            return
+        try:
+            if self.read_loose_ref(name) == expected:
+                with suppress(OSError):
+                    os.remove(filename)
+        finally:
+            f.abort()
 
     def get_peeled(self, name: Ref) -> ObjectID | None:
         """Return the cached peeled value of a ref, if available.
@@ -1465,7 +1508,7 @@ class DiskRefsContainer(RefsContainer):
                     pass
 
         if refs_to_pack:
-            self.add_packed_refs(refs_to_pack)
+            self._add_packed_refs(refs_to_pack, verify_loose=True)
 
 
 def _split_ref_line(line: bytes) -> tuple[ObjectID, Ref]:
